@@ -29,7 +29,7 @@ def gen(rng, d, n, prefix, depth2_ratio=0.3, mix=None):
         tr = foreign.Truth(descs)
         flat = tr.flat()
         bsb, l2, rb = hist.rand_params(rng, top.cluster_bits)
-        while top.size % (1 << bsb) and bsb > 9:
+        while any(dd.size % (1 << bsb) for dd in descs) and bsb > 9:   # every image of the chain is read at block granularity
             bsb -= 1
         g = hist.Geom(top.cluster_bits, top.refcount_order, top.size, bsb, l2, rb, punch=rng.choice([1, 1, 0]))
         # short histories too: a single operation whose effect nothing else re-dirties or repairs
